@@ -107,6 +107,12 @@ func isASCIIStr(s string) bool {
 // c15Decode decodes doc into a fresh struct of type t (fields preset to 100+i) and
 // reports which fields changed, as "index=value" pairs.
 func c15Decode(t reflect.Type, doc []byte, std, stream bool) (string, error) {
+	return c15DecodePieces(t, doc, std, stream, 0)
+}
+
+// c15DecodePieces: piece > 0 makes the stream's reader hand the document out in pieces of that many bytes (a key
+// may arrive in two Reads).
+func c15DecodePieces(t reflect.Type, doc []byte, std, stream bool, piece int) (string, error) {
 	p := reflect.New(t)
 	for i := 0; i < t.NumField(); i++ {
 		if p.Elem().Field(i).Kind() == reflect.Int {
@@ -121,6 +127,8 @@ func c15Decode(t reflect.Type, doc []byte, std, stream bool) (string, error) {
 		err = stdjson.NewDecoder(bytes.NewReader(doc)).Decode(p.Interface())
 	case !stream:
 		err = json.Unmarshal(append([]byte(nil), doc...), p.Interface())
+	case piece > 0:
+		err = json.NewDecoder(&pieceReader{data: append([]byte(nil), doc...), n: piece}).Decode(p.Interface())
 	default:
 		err = json.NewDecoder(bytes.NewReader(doc)).Decode(p.Interface())
 	}
@@ -327,12 +335,13 @@ func c15FirstWin(c *work.Ctx, t reflect.Type, shape []string, pad string) {
 }
 
 func c15One(c *work.Ctx, t reflect.Type, shape []string, key string, doc []byte, pad, spelling string) {
-	for mode := 0; mode < 2; mode++ {
-		stream := mode == 1
+	for mode := 0; mode < 5; mode++ {
+		stream := mode >= 1
+		piece := []int{0, 0, 1, 2, 3}[mode]
 		want, werr := c15Decode(t, doc, true, stream)
 		var got string
 		var gerr error
-		if p, msg := util.Safe(func() { got, gerr = c15Decode(t, doc, false, stream) }); p {
+		if p, msg := util.Safe(func() { got, gerr = c15DecodePieces(t, doc, false, stream, piece) }); p {
 			c.Violation(fmt.Sprintf("panic : %s : %s", pad, util.ErrClass(msg)), string(doc), msg)
 			continue
 		}
